@@ -375,7 +375,7 @@ func (e *Executor) Exec(line string, lb *types.LightBlock) string {
 			e.Cur = e.wm
 		}
 		e.Cur.PoolReset()
-		e.Cur.TakePosts()
+		e.TakePosts() // round-trips through the blockchain module first: nothing of an earlier scenario is left in flight
 		e.Cur.SetVerdict(true, "")
 		e.Cur.SetGetBlocks(nil)
 		e.dlWorld.SetGetBlocks(nil)
@@ -490,6 +490,7 @@ func (e *Executor) Exec(line string, lb *types.LightBlock) string {
 	case "tick":
 		if pi := Guard(e.LT.PendTick); pi != nil {
 			e.Unrecovered("pendBlockLoop", pi, "tick")
+			e.TakePosts() // blocks rebuilt before the panic were already handed over
 			return "panic"
 		}
 		var posted, reqs []string
